@@ -17,7 +17,10 @@ import (
 	"runtime/debug"
 	"strconv"
 	"strings"
+	"sync/atomic"
 	"time"
+
+	"github.com/couchbase/nitro/zzverif/vrt"
 )
 
 var verifDir = "/verif"
@@ -110,12 +113,51 @@ func cmdWorker(args []string) {
 		if json.Unmarshal([]byte(line), &t) != nil {
 			continue
 		}
+		stop := watchdog(&jobs[t.Job], t.Shard, out)
 		rep := runJob(id, tier, &jobs[t.Job], t.Shard, t.NShard, time.UnixMilli(t.Deadline), nil, false)
+		close(stop)
 		bs, _ := json.Marshal(rep)
 		out.Write(bs)
 		out.WriteByte('\n')
 		out.Flush()
 	}
+}
+
+// watchdog reports an execution that stops reaching scheduling points (a loop without any
+// synchronisation operation cannot be preempted or bounded by the step horizon): after 45 s without
+// a scheduling point while an execution is active it emits a report carrying the violation and
+// the choices made so far, and ends the worker process.
+func watchdog(j *Job, shard int, out *bufio.Writer) chan struct{} {
+	stop := make(chan struct{})
+	go func() {
+		last := atomic.LoadUint64(&vrt.Heartbeat)
+		idle := 0
+		for {
+			select {
+			case <-stop:
+				return
+			case <-time.After(5 * time.Second):
+			}
+			hb := atomic.LoadUint64(&vrt.Heartbeat)
+			if hb != last || vrt.X == nil {
+				last, idle = hb, 0
+				continue
+			}
+			idle++
+			if idle >= 9 {
+				rep := newReport(j.Name, shard)
+				rep.Exhaustive = false
+				rep.CapHit = "watchdog"
+				rep.violate(Viol{Kind: "hang", Msg: "an execution stopped reaching scheduling points for 45 s: a thread is looping without any synchronisation operation", Site: "no scheduling point", Job: j.Name, Choices: vrt.SnapshotChoices()})
+				bs, _ := json.Marshal(rep)
+				out.Write(bs)
+				out.WriteByte('\n')
+				out.Flush()
+				os.Exit(3)
+			}
+		}
+	}()
+	return stop
 }
 
 func runJob(id, tier string, j *Job, shard, nshard int, deadline time.Time, replay []int, trace bool) (rep *Report) {
